@@ -885,7 +885,14 @@ func checkList(dev string, res []string, net4, net6, raw []Line, where string) [
 		vs = append(vs, violation{pred, where + ": order of the APPEND raw entries changed"})
 	}
 	net := append(append([]Line{}, net4...), net6...)
-	// the ASA exception: a trailing `deny ip any6 any6` of the non-APPEND raw part counts as Netspoc entry
+	// the documented ASA exception: a `deny ip any6 any6` that terminates the IPv6 part (or the non-APPEND
+	// raw part) is appended, not prepended: it must terminate the merged ACL
+	if dev == "asa" {
+		last6 := func(p []Line) bool { return len(p) > 0 && p[len(p)-1].Kind == "6" }
+		if (last6(net6) || last6(rawP)) && res[len(res)-1] != "any6" {
+			vs = append(vs, violation{"any6_exception_not_applied", where + ": the terminating deny ip any6 any6 is not the last line"})
+		}
+	}
 	if dev == "nsx" {
 		// all raw entries behind all Netspoc entries
 		for _, r := range rawP {
@@ -1435,9 +1442,13 @@ func corpus() []Case {
 // ---------------------------------------------------------------- bounded-exhaustive (thorough)
 
 // exhaustive enumerates, for the list-merging core, all Netspoc lists up to length 3 and all raw
-// lists up to length 3 over {permit, deny} × {non-APPEND, APPEND} (APPEND flags form a suffix).
+// lists of length 1..3 over {permit, deny, other} (PAN-OS: {allow, drop}) with every position of
+// the [APPEND] marker.
 func exhaustive(dev string, f func(Case)) {
-	kinds := []string{"p", "d"}
+	kinds := []string{"p", "d", "o"}
+	if dev == "panos" {
+		kinds = []string{"p", "d"}
+	}
 	var lists func(n int) [][]string
 	lists = func(n int) [][]string {
 		if n == 0 {
@@ -1608,7 +1619,7 @@ func runC18(ctx *Ctx) *Result {
 		for _, d := range []string{"asa", "ios", "linux", "panos"} {
 			exhaustive(d, runCase)
 		}
-		res.Notes = append(res.Notes, "exhaustive: all Netspoc lists of <=3 lines and raw lists of 1..3 lines over {permit,deny}, every position of the [APPEND] marker, for ASA, IOS, Linux, PAN-OS")
+		res.Notes = append(res.Notes, "exhaustive: all Netspoc lists of <=3 lines and raw lists of 1..3 lines over {permit,deny,other}, every position of the [APPEND] marker, for ASA, IOS, Linux, PAN-OS")
 	}
 	return res
 }
